@@ -721,6 +721,11 @@ func (v *Protocol) WritePacket(pkt Packet, streamID int) (err error) {
 		return oe.WithMessage(err, "write message")
 	}
 
+	// The chunk size we announced applies to the messages we send from now on.
+	if pkt, ok := pkt.(*SetChunkSize); ok {
+		v.output.opt.chunkSize = pkt.ChunkSize
+	}
+
 	return
 }
 
